@@ -2,7 +2,6 @@ package rules
 
 import (
 	"fmt"
-	"go/token"
 	"go/types"
 	"strings"
 
@@ -17,7 +16,7 @@ func init() {
 		ID: "C52", Section: "5 C52", Technique: "control-dependence (guard) analysis and feasible-path enumeration on go/ssa",
 		Meta: core.Meta{
 			Level:       "other",
-			Explanation: "Decides two structural clauses in bfe_modules/mod_cors: (1) every Header.Set/Add of an Access-Control-* response header is control-dependent on matchOriginAllowed() having returned true in the same function, the Allow-Origin value is that call's second result, and every `return true` of matchOriginAllowed is guarded by a successful lookup in the rule's AccessControlAllowOriginMap; (2) on every feasible path through addVaryHeader (flag variables propagated through phis) either a Header.Set/Add(\"Vary\", …) is executed or the path observed that Vary already lists Origin or is \"*\"; every function that grants Access-Control-Allow-Origin calls addVaryHeader afterwards. Not covered: the string content of the Vary value, browsers' interpretation, rule matching (C16-C18).",
+			Explanation: "Decides structural clauses in bfe_modules/mod_cors: (1) every Header.Set/Add of an Access-Control-* response header is control-dependent on matchOriginAllowed() having returned true, and the Allow-Origin value is the origin that call yields - both facts are followed through results and parameters of private helpers (unexported, never used as a value, only plain static calls), through phis (named booleans / intermediates) and through the guards at every call site of a private helper; every success return of matchOriginAllowed is unreachable from the function entry without crossing a branch edge that establishes a successful lookup in a rule's AccessControlAllowOriginMap (decided on paths, independent of if-chain shape, merged returns, named lookup results); (2) on every feasible path through addVaryHeader (flag variables propagated through phis; a branch on the boolean result of a helper counts as an observation when every path of the helper yielding that result made it) either a Header.Set/Add(\"Vary\", …) is executed or the path observed that a value equals Origin or \"*\"; every feasible path from a grant of Access-Control-Allow-Origin, and from every branch edge that established \"origin allowed\", to the end of the handler passes addVaryHeader and the store of the yielded origin - a private helper that returns earlier hands the obligation to the code behind each of its call sites together with the constants it returned, and branch edges are not followed when they contradict what the path knows (a result of a call compared with the values the callee can return together with an already tested result; strings.Split with a non-empty constant separator returns at least one element). Not covered: the string content of the Vary value, browsers' interpretation, rule matching (C16-C18); that the lookup key of a success return corresponds to the origin it returns; obligations handed to callers through function values, interface calls, go/defer or more than 3 helper levels (these are reported, not proved); infeasibility arguments other than the two named above (a defensive early return that needs another argument is reported); first-match is decided only for a Match() test located in corsHandler/corsPreflightHandler themselves.",
 			RuleText:    "obligations = each Access-Control-* header store, each success return of matchOriginAllowed, each exit path of addVaryHeader, each granting function; keyed by function and header/path signature",
 			Assumptions: []string{"bfe_http.Header.Set/Add are the only ways mod_cors writes response headers (checked: no index stores into a Header in the package)"},
 		},
@@ -30,6 +29,11 @@ func init() {
 			{Name: "keep-backend-grant-early-return", File: "bfe_modules/mod_cors/mod_cors.go", Old: "	m.state.ReqAllowOriginHit.Inc(1)\n\n	rspHeader.Set(HeaderAccessControlAllowOrigin, matchedOrigin)\n\n	if rule.AccessControlAllowCredentials {\n		rspHeader.Set(HeaderAccessControlAllowCredentials, \"true\")\n	}\n\n	if len(rule.AccessControlExposeHeaders) > 0 {", New: "	m.state.ReqAllowOriginHit.Inc(1)\n\n	if rspHeader.Get(HeaderAccessControlAllowOrigin) != \"\" {\n		return\n	}\n	rspHeader.Set(HeaderAccessControlAllowOrigin, matchedOrigin)\n\n	if rule.AccessControlAllowCredentials {\n		rspHeader.Set(HeaderAccessControlAllowCredentials, \"true\")\n	}\n\n	if len(rule.AccessControlExposeHeaders) > 0 {", Expect: "vary-after-allow"},
 			{Name: "table-merged-on-reload", File: "bfe_modules/mod_cors/cors_rule_table.go", Old: "	t.productRule = ruleConf.Config\n", New: "	for product, ruleList := range ruleConf.Config {\n		t.productRule[product] = ruleList\n	}\n", Expect: "table-replaced"},
 			{Name: "vary-call-dropped", File: "bfe_modules/mod_cors/mod_cors.go", Old: "		rspHeader.Set(HeaderAccessControlExposeHeaders, strings.Join(rule.AccessControlExposeHeaders, \",\"))\n	}\n\n	addVaryHeader(rspHeader)", New: "		rspHeader.Set(HeaderAccessControlExposeHeaders, strings.Join(rule.AccessControlExposeHeaders, \",\"))\n	}\n", Expect: "vary-after-grant"},
+			{Name: "silent-extract-origin-lookup-helper", File: "bfe_modules/mod_cors/mod_cors.go", Old: "// set response header for non-preflight request\nfunc (m *ModuleCors) setRespHeaderForNonPreflight(request *bfe_basic.Request, rspHeader bfe_http.Header, rule *CorsRule) {\n\torigin := request.HttpRequest.Header.Get(HeaderOrigin)\n\tallow, matchedOrigin := matchOriginAllowed(origin, rule)\n\tif !allow {\n\t\tm.state.ReqNotAllowOriginHit.Inc(1)\n\t\treturn\n\t}\n\tm.state.ReqAllowOriginHit.Inc(1)\n", New: "// grantedOrigin looks the request origin up in the rule and counts the outcome\nfunc (m *ModuleCors) grantedOrigin(req *bfe_basic.Request, r *CorsRule) (string, bool) {\n\to := req.HttpRequest.Header.Get(HeaderOrigin)\n\tgranted, value := matchOriginAllowed(o, r)\n\tif granted {\n\t\tm.state.ReqAllowOriginHit.Inc(1)\n\t\treturn value, true\n\t}\n\tm.state.ReqNotAllowOriginHit.Inc(1)\n\treturn \"\", false\n}\n\n// set response header for non-preflight request\nfunc (m *ModuleCors) setRespHeaderForNonPreflight(request *bfe_basic.Request, rspHeader bfe_http.Header, rule *CorsRule) {\n\tmatchedOrigin, allow := m.grantedOrigin(request, rule)\n\tif !allow {\n\t\treturn\n\t}\n", Silent: true},
+			{Name: "silent-extract-grant-writer-helper", File: "bfe_modules/mod_cors/mod_cors.go", Old: "// set response header for preflight request\nfunc (m *ModuleCors) setRespHeaderForPreflght(request *bfe_basic.Request, rspHeader bfe_http.Header, rule *CorsRule) {\n\torigin := request.HttpRequest.Header.Get(HeaderOrigin)\n\tallow, matchedOrigin := matchOriginAllowed(origin, rule)\n\tif !allow {\n\t\tm.state.ReqNotAllowOriginHit.Inc(1)\n\t\treturn\n\t}\n\tm.state.ReqAllowOriginHit.Inc(1)\n\n\trspHeader.Set(HeaderAccessControlAllowOrigin, matchedOrigin)\n\n\tif rule.AccessControlAllowCredentials {\n\t\trspHeader.Set(HeaderAccessControlAllowCredentials, \"true\")\n\t}\n", New: "// writeGrant stores the granted origin and the credentials flag of the rule\nfunc writeGrant(h bfe_http.Header, r *CorsRule, grantedOrigin string) {\n\th.Set(HeaderAccessControlAllowOrigin, grantedOrigin)\n\tif r.AccessControlAllowCredentials {\n\t\th.Set(HeaderAccessControlAllowCredentials, \"true\")\n\t}\n}\n\n// set response header for preflight request\nfunc (m *ModuleCors) setRespHeaderForPreflght(request *bfe_basic.Request, rspHeader bfe_http.Header, rule *CorsRule) {\n\torigin := request.HttpRequest.Header.Get(HeaderOrigin)\n\tallow, matchedOrigin := matchOriginAllowed(origin, rule)\n\tif !allow {\n\t\tm.state.ReqNotAllowOriginHit.Inc(1)\n\t\treturn\n\t}\n\tm.state.ReqAllowOriginHit.Inc(1)\n\n\twriteGrant(rspHeader, rule, matchedOrigin)\n", Silent: true},
+			{Name: "silent-match-merged-returns", File: "bfe_modules/mod_cors/mod_cors.go", Old: "\tif _, ok := rule.AccessControlAllowOriginMap[\"%origin\"]; ok {\n\t\treturn true, origin\n\t}\n\n\tif _, ok := rule.AccessControlAllowOriginMap[\"*\"]; ok {\n\t\treturn true, \"*\"\n\t}\n\n\tif _, ok := rule.AccessControlAllowOriginMap[origin]; ok {\n\t\treturn true, origin\n\t}\n\n\treturn false, \"\"\n}\n", New: "\t_, echo := rule.AccessControlAllowOriginMap[\"%origin\"]\n\tif !echo {\n\t\tif _, wildcard := rule.AccessControlAllowOriginMap[\"*\"]; wildcard {\n\t\t\treturn true, \"*\"\n\t\t}\n\t\t_, echo = rule.AccessControlAllowOriginMap[origin]\n\t}\n\tif echo == false {\n\t\treturn false, \"\"\n\t}\n\treturn true, origin\n}\n", Silent: true},
+			{Name: "silent-defensive-origin-check", File: "bfe_modules/mod_cors/mod_cors.go", Old: "\tm.state.ReqAllowOriginHit.Inc(1)\n\n\trspHeader.Set(HeaderAccessControlAllowOrigin, matchedOrigin)\n\n\tif rule.AccessControlAllowCredentials {\n\t\trspHeader.Set(HeaderAccessControlAllowCredentials, \"true\")\n\t}\n\n\tif len(rule.AccessControlAllowMethods) > 0 {", New: "\tm.state.ReqAllowOriginHit.Inc(1)\n\tif openDebug {\n\t\tlog.Logger.Debug(\"%s: origin[%s] allowed as [%s]\", m.name, origin, matchedOrigin)\n\t}\n\twildcard := \"*\" == matchedOrigin\n\tif !wildcard && origin != matchedOrigin {\n\t\t// cannot happen: matchOriginAllowed yields the request origin or \"*\"\n\t\tlog.Logger.Warn(\"%s: unexpected matched origin[%s]\", m.name, matchedOrigin)\n\t\treturn\n\t}\n\n\trspHeader.Set(HeaderAccessControlAllowOrigin, matchedOrigin)\n\n\tif rule.AccessControlAllowCredentials {\n\t\trspHeader.Set(HeaderAccessControlAllowCredentials, \"true\")\n\t}\n\n\tif len(rule.AccessControlAllowMethods) > 0 {", Silent: true},
+			{Name: "silent-vary-switch-helper", File: "bfe_modules/mod_cors/mod_cors.go", Old: "\tvaryValue := rspHeader.Get(HeaderVary)\n\tif len(varyValue) == 0 {\n\t\trspHeader.Set(HeaderVary, HeaderOrigin)\n\t\treturn\n\t}\n\n\tif varyValue == \"*\" {\n\t\treturn\n\t}\n\n\tneedAddOrigin := true\n\titems := strings.Split(varyValue, \",\")\n\tfor _, item := range items {\n\t\tif strings.TrimSpace(item) == HeaderOrigin {\n\t\t\tneedAddOrigin = false\n\t\t\tbreak\n\t\t}\n\t}\n\n\tif needAddOrigin {\n\t\trspHeader.Set(HeaderVary, varyValue+\",\"+HeaderOrigin)\n\t}\n}\n", New: "\tvaryValue := rspHeader.Get(HeaderVary)\n\tswitch {\n\tcase varyValue == \"\":\n\t\trspHeader.Set(HeaderVary, HeaderOrigin)\n\tcase \"*\" == varyValue:\n\tdefault:\n\t\titems := strings.Split(varyValue, \",\")\n\t\tif len(items) < 1 {\n\t\t\treturn\n\t\t}\n\t\tlisted := originListed(items)\n\t\tif !listed {\n\t\t\trspHeader.Set(HeaderVary, varyValue+\",\"+HeaderOrigin)\n\t\t}\n\t}\n}\n\nfunc originListed(fields []string) bool {\n\tfor i := 0; i < len(fields); i++ {\n\t\tif HeaderOrigin != strings.TrimSpace(fields[i]) {\n\t\t\tcontinue\n\t\t}\n\t\treturn true\n\t}\n\treturn false\n}\n", Silent: true},
 		},
 	})
 }
@@ -51,7 +55,7 @@ func headerWrite(in ssa.Instruction) (name string, call *ssa.CallCommon, ok bool
 }
 
 func runC52(c *core.Ctx) {
-	const pkg = "bfe_modules/mod_cors"
+	const pkg = c52pkg
 	if c.P.Pkg(pkg) == nil {
 		c.Missing(pkg)
 		return
@@ -65,41 +69,41 @@ func runC52(c *core.Ctx) {
 		c.Missing(pkg + ".addVaryHeader")
 	}
 	fns := c.P.SrcFuncs(pkg)
-	// (1) Access-Control-* stores are guarded by matchOriginAllowed()#0.
+	a := newC52an(c.P)
+	// witnesses of the must-pass rules; a call of a function that passes the witness on all of its
+	// paths is a witness itself (helper extraction)
+	isVary := core.LiftMust(func(x ssa.Instruction) bool {
+		ci, ok := x.(ssa.CallInstruction)
+		return ok && core.CallIs(ci.Common(), pkg+".addVaryHeader")
+	}, 3)
+	isGrant := core.LiftMust(func(x ssa.Instruction) bool {
+		name, call, ok := headerWrite(x)
+		return ok && name == "Access-Control-Allow-Origin" && a.originOK(call.Args[2], x.Block(), 4)
+	}, 3)
+	// (1) Access-Control-* stores are control-dependent on matchOriginAllowed() == true. The fact may
+	// reach the store through the result of a private helper, a named boolean, or the guards at the
+	// call sites of the private helper that contains the store.
 	for _, fn := range fns {
 		c.Analysed(core.FuncKey(fn))
-		granted := false
-		core.Instrs(fn, func(in ssa.Instruction) {
+		for _, in := range allInstrs(fn) {
 			// raw map stores into a Header would bypass the rule
 			if mu, ok := in.(*ssa.MapUpdate); ok && core.TypeStr(mu.Map.Type()) == "bfe_http.Header" {
 				c.Check("header-raw-store", core.FuncKey(fn), in.Pos(), false, "raw map store into a bfe_http.Header in mod_cors: header writes must go through Set/Add so that the grant rule sees them")
 			}
 			name, call, ok := headerWrite(in)
 			if !ok || !(strings.HasPrefix(name, "Access-Control-") || name == "?") {
-				return
+				continue
 			}
-			guarded := core.HasGuard(in.Block(), func(g core.Guard) bool {
-				return g.Pol && isExtractOfCall(g.Cond, 0, pkg+".matchOriginAllowed")
-			})
-			c.Check("acao-guard", core.FuncKey(fn)+":"+name, in.Pos(), guarded,
+			c.Check("acao-guard", core.FuncKey(fn)+":"+name, in.Pos(), a.guardedAllowed(in.Block(), 4),
 				"Header write of "+name+" is not control-dependent on matchOriginAllowed() == true; guards here: "+strings.Join(core.GuardStrs(in.Block()), " && "))
-			if name == "Access-Control-Allow-Origin" {
-				granted = true
-				c.Check("acao-value", core.FuncKey(fn), in.Pos(), isExtractOfCall(call.Args[2], 1, pkg+".matchOriginAllowed"),
-					"Access-Control-Allow-Origin value is "+core.Render(call.Args[2])+", expected the origin returned by matchOriginAllowed")
+			if name != "Access-Control-Allow-Origin" {
+				continue
 			}
-		})
-		if granted && vary != nil {
-			// every path from a grant to return passes addVaryHeader
-			for _, in := range allInstrs(fn) {
-				name, _, ok := headerWrite(in)
-				if !ok || name != "Access-Control-Allow-Origin" {
-					continue
-				}
-				bad := core.MustPass(fn, in, func(x ssa.Instruction) bool {
-					ci, ok := x.(ssa.CallInstruction)
-					return ok && core.CallIs(ci.Common(), pkg+".addVaryHeader")
-				})
+			c.Check("acao-value", core.FuncKey(fn), in.Pos(), a.originOK(call.Args[2], in.Block(), 4),
+				"Access-Control-Allow-Origin value is "+core.Render(call.Args[2])+", expected the origin returned by matchOriginAllowed")
+			if vary != nil {
+				// every feasible path from a grant to the end of the handler passes addVaryHeader
+				bad := a.escapes(in.Block(), c52idx(in)+1, c52state{}, isVary, 3)
 				c.Check("vary-after-grant", core.FuncKey(fn), in.Pos(), bad == nil,
 					"a path from granting Access-Control-Allow-Origin reaches return without calling addVaryHeader")
 			}
@@ -107,37 +111,34 @@ func runC52(c *core.Ctx) {
 	}
 	// (1b) once the handler has branched on "origin allowed", the response depends on the request
 	// Origin whatever it does next (also when it decides to keep a header the backend supplied):
-	// every path from the allowed edge to a return passes addVaryHeader, and passes the store of
-	// the origin the rule yields (a stale or backend-supplied Access-Control-Allow-Origin is not
-	// what the matching rule configured).
+	// every feasible path from the allowed edge to the end of the handler passes addVaryHeader, and
+	// passes the store of the origin the rule yields (a stale or backend-supplied
+	// Access-Control-Allow-Origin is not what the matching rule configured). A private helper that
+	// returns to its caller before that hands the obligation to the code behind its call sites.
 	for _, fn := range fns {
 		for _, in := range allInstrs(fn) {
 			ifi, ok := in.(*ssa.If)
-			if !ok {
+			if !ok || len(ifi.Block().Succs) != 2 || ifi.Block().Succs[0] == ifi.Block().Succs[1] {
 				continue
 			}
-			cond := ifi.Cond
-			allowedSucc := 0
-			if u, isU := cond.(*ssa.UnOp); isU && u.Op == token.NOT {
-				cond = u.X
-				allowedSucc = 1
-			}
-			if !isExtractOfCall(cond, 0, pkg+".matchOriginAllowed") {
+			base, pol := c52normBool(ifi.Cond)
+			if !a.impliesAllowed(base, 4) {
 				continue
 			}
-			ab := ifi.Block().Succs[allowedSucc]
-			if len(ab.Instrs) == 0 {
+			// the obligation belongs to the branch that establishes the fact: a test in code that
+			// already runs under "allowed" (its own guards or those of every call site of the
+			// private helper it lies in) is covered by the search from the establishing edge
+			if a.guardedAllowed(ifi.Block(), 4) {
 				continue
 			}
-			isVary := func(x ssa.Instruction) bool {
-				ci, ok := x.(ssa.CallInstruction)
-				return ok && core.CallIs(ci.Common(), pkg+".addVaryHeader")
+			st, feasible := a.edge(c52state{}, ifi.Cond, pol)
+			if !feasible {
+				continue
 			}
-			isGrant := func(x ssa.Instruction) bool {
-				name, call, ok := headerWrite(x)
-				return ok && name == "Access-Control-Allow-Origin" && isExtractOfCall(call.Args[2], 1, pkg+".matchOriginAllowed")
+			ab := ifi.Block().Succs[1]
+			if pol {
+				ab = ifi.Block().Succs[0]
 			}
-			isRet := func(x ssa.Instruction) bool { _, r := x.(*ssa.Return); return r }
 			for _, spec := range []struct {
 				rule string
 				pred func(ssa.Instruction) bool
@@ -146,7 +147,39 @@ func runC52(c *core.Ctx) {
 				{"vary-after-allow", isVary, "after matchOriginAllowed() reported the origin as allowed a return is reachable without addVaryHeader: the response depends on the request Origin but Vary does not list it"},
 				{"grant-after-allow", isGrant, "after matchOriginAllowed() reported the origin as allowed a return is reachable without storing the origin the rule yields into Access-Control-Allow-Origin: the response keeps whatever value was there instead of the configured grant"},
 			} {
-				okPath := spec.pred(ab.Instrs[0]) || core.ReachAvoiding(fn, ab.Instrs[0], spec.pred, isRet) == nil
+				// a later re-test of the same fact (logging, metrics) after the obligation was met on
+				// every path is harmless
+				okPath := false
+				for _, x := range allInstrs(fn) {
+					if spec.pred(x) && core.Dominates(x, ifi) {
+						okPath = true
+					}
+				}
+				// the tested value is the result of a helper that met the obligation itself before
+				// every return that can yield true
+				if call, idx, isCall := c52callOf(base); !okPath && isCall {
+					if h := a.body(&call.Call); h != nil && !a.isMatchFn(h) {
+						met := true
+						for _, r := range core.Returns(h) {
+							rv := core.RetVals(r)
+							if idx >= len(rv) {
+								met = false
+								break
+							}
+							if cb, isC := c52constBool(rv[idx]); isC && !cb {
+								continue
+							}
+							ret := ssa.Instruction(r)
+							if core.ReachAvoiding(h, nil, spec.pred, func(x ssa.Instruction) bool { return x == ret }) != nil {
+								met = false
+							}
+						}
+						okPath = met
+					}
+				}
+				if !okPath {
+					okPath = a.escapes(ab, 0, st, spec.pred, 3) == nil
+				}
 				c.Check(spec.rule, core.FuncKey(fn), ifi.Pos(), okPath, spec.msg)
 			}
 		}
@@ -183,15 +216,19 @@ func runC52(c *core.Ctx) {
 		n := 0
 		for _, in := range allInstrs(fn) {
 			ifi, ok := in.(*ssa.If)
-			if !ok {
+			if !ok || len(ifi.Block().Succs) != 2 {
 				continue
 			}
-			call, ok := ifi.Cond.(*ssa.Call)
+			base, pol := c52normBool(ifi.Cond)
+			call, ok := base.(*ssa.Call)
 			if !ok || !call.Call.IsInvoke() || call.Call.Method.Name() != "Match" {
 				continue
 			}
 			n++
-			matched := ifi.Block().Succs[0]
+			matched := ifi.Block().Succs[1]
+			if pol {
+				matched = ifi.Block().Succs[0]
+			}
 			again := core.ReachAvoiding(fn, matched.Instrs[0], nil, func(x ssa.Instruction) bool { return x == ssa.Instruction(call) })
 			c.Check("first-match", hname, ifi.Pos(), again == nil && matched.Instrs[0] != ssa.Instruction(call),
 				"after a CORS rule's condition matched, another rule's condition can still be evaluated: a request whose origin the first matching rule denies could be granted Access-Control-* headers by a later, broader rule")
@@ -200,52 +237,42 @@ func runC52(c *core.Ctx) {
 			c.Check("first-match", hname, fn.Pos(), false, "no rule-condition test found in "+hname)
 		}
 	}
-	// matchOriginAllowed: each return true is guarded by a map hit.
+	// matchOriginAllowed: a return that can report "allowed" is not reachable from the entry without
+	// crossing a branch edge that establishes a successful lookup in the rule's
+	// AccessControlAllowOriginMap (decided on paths: the shape of the if-chain, merged returns and
+	// named lookup results do not matter). One obligation per (success return, lookup that leads to it).
 	if match != nil {
 		for _, r := range core.Returns(match) {
-			if len(r.Results) != 2 {
+			rv := core.RetVals(r)
+			if len(rv) != 2 {
 				continue
 			}
-			k, isConst := r.Results[0].(*ssa.Const)
-			if isConst && k.Value != nil && k.Value.ExactString() == "false" {
+			if cb, isConst := c52constBool(rv[0]); isConst && !cb {
 				continue
 			}
-			ok := core.HasGuard(r.Block(), func(g core.Guard) bool {
-				s := core.Render(g.Cond)
-				return g.Pol && strings.Contains(s, "rule.AccessControlAllowOriginMap[") && strings.HasSuffix(s, "#1")
-			})
-			c.Check("allow-return", "matchOriginAllowed:"+core.Render(r.Results[1]), r.Pos(), ok,
-				"matchOriginAllowed returns allowed="+core.Render(r.Results[0])+" without a successful lookup in rule.AccessControlAllowOriginMap; guards: "+strings.Join(core.GuardStrs(r.Block()), " && "))
+			ok := !a.reachableWithoutHit(match, r, 3)
+			if b, pol := c52normBool(rv[0]); !ok && pol && a.impliesHit(b, 3) {
+				ok = true // returns the lookup result itself
+			}
+			msg := "matchOriginAllowed returns allowed=" + core.Render(rv[0]) + " on a path without a successful lookup in the rule's AccessControlAllowOriginMap; guards: " + strings.Join(core.GuardStrs(r.Block()), " && ")
+			hits := a.hitEdgesReaching(match, r, 3)
+			if len(hits) == 0 || !ok {
+				c.Check("allow-return", "matchOriginAllowed:"+core.Render(rv[1]), r.Pos(), ok, msg)
+			}
+			if ok {
+				for _, h := range hits {
+					c.Check("allow-return", "matchOriginAllowed:"+core.Render(rv[1])+":"+h, r.Pos(), true, "")
+				}
+			}
 		}
 		c.Min("allow-return", 3)
 	}
-	// (2) addVaryHeader paths.
+	// (2) addVaryHeader paths (branches on the result of a helper count as an observation of
+	// Origin / * when every path of the helper yielding that result observed it; edges excluded by
+	// the contract of strings.Split are not paths).
 	if vary != nil {
 		c.Analysed(core.FuncKey(vary))
-		n, bad := 0, ""
-		complete := core.EnumPaths(vary, 2, 5000, func(p *core.Path) {
-			n++
-			set := p.Has(func(in ssa.Instruction) bool {
-				name, _, ok := headerWrite(in)
-				return ok && name == "Vary"
-			})
-			observed := ""
-			p.Edges(func(cond ssa.Value, taken bool) {
-				if !taken {
-					return
-				}
-				if b, ok := cond.(*ssa.BinOp); ok && b.Op.String() == "==" {
-					for _, o := range []ssa.Value{b.X, b.Y} {
-						if s, ok := core.ConstString(o); ok && (s == "Origin" || s == "*") {
-							observed = s
-						}
-					}
-				}
-			})
-			if !set && observed == "" && bad == "" {
-				bad = pathSig(p)
-			}
-		})
+		n, complete, bad := a.varyPaths(vary, true, false, 2)
 		c.Check("vary-path", "addVaryHeader", vary.Pos(), complete && bad == "" && n >= 3,
 			fmt.Sprintf("%d feasible paths enumerated (complete=%v); a path returns without Header.Set/Add(\"Vary\", …) although it did not observe Origin or * in the existing value; branches taken: %s", n, complete, bad))
 		c.Note("addVaryHeader: %d feasible paths enumerated", n)
